@@ -30,6 +30,7 @@ RULES = {
     "C18-K3": "opening quote first, every emitted inner quote doubled, closing quote on every path",
     "C18-K4": "SYSTem:ERRor? pops one entry, prints it, then releases its text, on every path",
     "C18-K6": "(static-heap build) the text handed to the response is the stored one: copies are consecutive pieces of the pushed text, the read-out measures each part up to the end of the heap (shared with C20-H2 / C20-H1c)",
+    "C18-K7": "the ';' between description and text is written exactly for part index 1 (a text stored in two heap pieces gets no second separator)",
     "C18-K5": "description/length part arrays are indexed below their declared size",
 }
 
@@ -195,6 +196,49 @@ def rule_k3(ck, prog, S):
         ck.holds("C18-K3", st, K.loc(f, chunk[0]), "every chunk ending in '\"' is followed by one more '\"'")
 
 
+def rule_k7(ck, prog, S, rule="C18-K7"):
+    f = prog.fn("SCPI_ResultError")
+    if f is None:
+        return
+    semis = list(f.calls("writeSemicolon"))
+    st = K.site(f, "separator-part-index", 0)
+    if len(semis) != 1:
+        ck.violated(rule, st, K.loc(f), "expected one separator write in SCPI_ResultError, found %d" % len(semis))
+        return
+    try:
+        parts = int(prog.macros.get("SCPIDEFINE_DESCRIPTION_MAX_PARTS"))
+    except (TypeError, ValueError):
+        ck.anchor_lost(rule, "macro SCPIDEFINE_DESCRIPTION_MAX_PARTS")
+        return
+    facts = K.facts_at(S, f, semis[0]) or []
+    # the loop index: the variable compared with the number of parts in the loop condition
+    idx = None
+    for b in f.blocks.values():
+        c = b.cond
+        if c is not None and c.k == "BinaryOperator" and c.get("op") == "<" and C.const_of(c.child(1)) == parts:
+            idx = c.child(0).strip_all_casts().get("path")
+    if idx is None:
+        ck.anchor_lost(rule, "part loop of SCPI_ResultError")
+        return
+    ok = set(range(parts))
+    import operator
+    ops = {"==": operator.eq, "!=": operator.ne, "<": operator.lt, "<=": operator.le, ">": operator.gt, ">=": operator.ge}
+    for a, pol in facts:
+        if isinstance(pol, tuple) or a.k != "BinaryOperator" or a.get("op") not in ops:
+            continue
+        l, r = a.child(0).strip_all_casts(), a.child(1).strip_all_casts()
+        if l.get("path") == idx and C.const_of(r) is not None:
+            ok = {v for v in ok if ops[a["op"]](v, C.const_of(r)) == bool(pol)}
+        elif r.get("path") == idx and C.const_of(l) is not None:
+            ok = {v for v in ok if ops[a["op"]](C.const_of(l), v) == bool(pol)}
+    if ok == {1}:
+        ck.holds(rule, st, K.loc(f, semis[0]), "separator written for part index 1 only (of %d parts)" % parts)
+    else:
+        ck.violated(rule, st, K.loc(f, semis[0]),
+                    "the ';' separator is written for part indices %s of %d: a device-dependent text that wraps around the end of the "
+                    "static heap (parts 1 and 2) is reported with a ';' inserted at the wrap point" % (sorted(ok), parts))
+
+
 def rule_k4(ck, prog, S, cfg):
     f = prog.fn("SCPI_SystemErrorNextQ")
     if f is None:
@@ -228,6 +272,7 @@ def run(ck, fb, tier):
         rule_k2_k5(ck, prog, cfg)
         rule_k3(ck, prog, S)
         rule_k4(ck, prog, S, cfg)
+        rule_k7(ck, prog, S)
         if cfg == "C":
             from . import c20
             c20.rule_h1_h2(K.RuleProxy(ck, {"C20-H2": "C18-K6", "C20-H1c": "C18-K6"}), prog)
